@@ -38,6 +38,11 @@ type fnSpec struct {
 	fuelled          bool              // a recursive traversal: emitted with a fuel argument (0 = stop)
 	named            string            // name of the named result a bare `return` yields ("" = none)
 	mapVar           string            // the map a fold-loop updates
+	loopType         string            // the Lean type of that tuple, and of the elements the loop ranges over: the loop body becomes a definition of its own
+	loopElem         string
+	aux              []string          // auxiliary definitions (loop bodies) emitted before the function
+	loopVars         []string          // the locals a general loop updates, in the order of the tuple that carries them
+	namedZero        string            // the zero value the named result starts with (when it is read before it is assigned)
 	closure          string            // translate the function literal assigned to this local of the function, not the function itself
 	state            string            // Go expression of the list a void function updates in place ("" = none); Lean name `files`
 	ints             map[string]bool   // locals / parameters that are Go ints (Lean Int)
@@ -202,6 +207,11 @@ func (c *cg) expr(e ast.Expr) string {
 				return "(" + x.Value + " : Int)"
 			}
 			return x.Value
+		case token.CHAR:
+			// a rune literal: its code point
+			if r, _, _, err := strconv.UnquoteChar(strings.Trim(x.Value, "'"), '\''); err == nil {
+				return fmt.Sprintf("(%d : Nat)", r)
+			}
 		}
 		return c.fail("literal %s", x.Value)
 	case *ast.Ident:
@@ -636,6 +646,124 @@ func (c *cg) runLoop(f *ast.ForStmt) (string, bool) {
 	return "let " + vn + " := " + vn + " + Int.ofNat (List.length (List.takeWhile (fun x_ => !" + pred + ") (List.drop (Int.toNat (" + vn + " + 1)) " + l + ")))", true
 }
 
+// stateLoop: `for _, x := range L { ...statements updating the locals listed in loopVars... }` - a left
+// fold over L whose state is the tuple of those locals
+func (c *cg) stateLoop(r *ast.RangeStmt) (string, bool) {
+	if len(c.s.loopVars) == 0 {
+		return "", false
+	}
+	x, ok := r.Value.(*ast.Ident)
+	if !ok {
+		return "", false
+	}
+	if k, ok := r.Key.(*ast.Ident); r.Key != nil && (!ok || k.Name != "_") {
+		return "", false
+	}
+	for _, v := range c.s.loopVars {
+		if !c.s.locals[v] {
+			return "", false
+		}
+	}
+	l := c.expr(r.X)
+	c.s.locals[x.Name] = true
+	tup := c.tuple()
+	body := c.block(r.Body.List, "    ")
+	if c.s.loopType != "" {
+		// the loop body as a definition of its own, over the function's parameters
+		var names []string
+		for _, m := range regexp.MustCompile(`\(([^:()]+):`).FindAllStringSubmatch(c.s.binders, -1) {
+			names = append(names, strings.Fields(m[1])...)
+		}
+		name := fmt.Sprintf("%s_step%d", c.s.lean, len(c.s.aux)+1)
+		c.s.aux = append(c.s.aux, fmt.Sprintf("/-- %s: one round of the loop over `%s` in `%s` -/\ndef %s %s (st_ : %s) (%s : %s) : %s :=\n  match st_ with\n  | %s =>\n%s\n",
+			c.s.file, exprText(r.X), c.s.name, name, c.s.binders, c.s.loopType, leanIdent(x.Name), c.s.loopElem, c.s.loopType, tup, body))
+		return "let " + tup + " := List.foldl (" + name + " " + strings.Join(names, " ") + ") " + tup + " " + l, true
+	}
+	return "let " + tup + " := List.foldl (fun " + tup + " " + leanIdent(x.Name) + " =>\n" + body + ") " + tup + " " + l, true
+}
+
+func (c *cg) tuple() string {
+	var vs []string
+	for _, v := range c.s.loopVars {
+		vs = append(vs, leanIdent(v))
+	}
+	return "(" + strings.Join(vs, ", ") + ")"
+}
+
+// block translates statements that only update the loop's state variables (and locals of their own)
+// into a term yielding the tuple of the state variables afterwards
+func (c *cg) block(list []ast.Stmt, ind string) string {
+	if len(list) == 0 {
+		return ind + c.tuple()
+	}
+	rest := func() string { return c.block(list[1:], ind) }
+	switch s := list[0].(type) {
+	case *ast.AssignStmt:
+		if len(s.Lhs) == 2 && len(s.Rhs) == 1 && exprText(s.Lhs[1]) == "_" {
+			if x, ok := s.Lhs[0].(*ast.Ident); ok {
+				rhs := c.expr(s.Rhs[0])
+				c.s.locals[x.Name] = true
+				return ind + "let " + leanIdent(x.Name) + " := " + rhs + ".1\n" + rest()
+			}
+		}
+		if len(s.Lhs) != 1 || len(s.Rhs) != 1 || (s.Tok != token.ASSIGN && s.Tok != token.DEFINE) {
+			return ind + c.fail("assignment in a loop body")
+		}
+		id, ok := s.Lhs[0].(*ast.Ident)
+		if !ok {
+			return ind + c.fail("assignment to %s in a loop body", exprText(s.Lhs[0]))
+		}
+		rhs := c.expr(s.Rhs[0])
+		c.s.locals[id.Name] = true
+		return ind + "let " + leanIdent(id.Name) + " := " + rhs + "\n" + rest()
+	case *ast.ExprStmt:
+		// v.M(args): a method that updates the state variable v ("meth:v.M" in the dictionary)
+		if call, ok := s.X.(*ast.CallExpr); ok {
+			if sel, ok := call.Fun.(*ast.SelectorExpr); ok {
+				if f, ok := c.s.calls["meth:"+exprText(call.Fun)]; ok {
+					v := c.expr(sel.X)
+					args := []string{v}
+					for _, a := range call.Args {
+						args = append(args, c.expr(a))
+					}
+					return ind + "let " + v + " := (" + f + " " + strings.Join(args, " ") + ")\n" + rest()
+				}
+			}
+		}
+		return ind + c.fail("statement %s in a loop body", exprText(s.X))
+	case *ast.IfStmt:
+		pre := ""
+		if s.Init != nil {
+			a, ok := s.Init.(*ast.AssignStmt)
+			if !ok || len(a.Lhs) != 1 || len(a.Rhs) != 1 {
+				return ind + c.fail("if-init statement in a loop body")
+			}
+			id, ok := a.Lhs[0].(*ast.Ident)
+			if !ok {
+				return ind + c.fail("if-init statement in a loop body")
+			}
+			rhs := c.expr(a.Rhs[0])
+			c.s.locals[id.Name] = true
+			pre = "let " + leanIdent(id.Name) + " := " + rhs + "; "
+		}
+		cond := c.expr(s.Cond)
+		thenT := c.block(s.Body.List, ind+"    ")
+		var elseT string
+		switch e := s.Else.(type) {
+		case nil:
+			elseT = ind + "    " + c.tuple()
+		case *ast.BlockStmt:
+			elseT = c.block(e.List, ind+"    ")
+		case *ast.IfStmt:
+			elseT = c.block([]ast.Stmt{e}, ind+"    ")
+		default:
+			return ind + c.fail("else branch")
+		}
+		return ind + "let " + c.tuple() + " := (" + pre + "if " + cond + " then\n" + thenT + "\n" + ind + "  else\n" + elseT + ")\n" + rest()
+	}
+	return ind + c.fail("statement of kind %T in a loop body", list[0])
+}
+
 // foldErrLoop: `for _, x := range L { if C(x) { v, err = F(x, v); p.CheckErr(err, ...) } }` - a fold over L
 // that threads v through the elements satisfying C and stops the run at the first error
 func (c *cg) foldErrLoop(r *ast.RangeStmt) (string, string, bool) {
@@ -790,6 +918,9 @@ func (c *cg) stmts(list []ast.Stmt, k func(ind string) string, ind string) strin
 		if out, ok := c.foldAssignLoop(s); ok {
 			return ind + out + "\n" + rest(ind)
 		}
+		if out, ok := c.stateLoop(s); ok {
+			return ind + out + "\n" + rest(ind)
+		}
 		if head, v, ok := c.foldErrLoop(s); ok {
 			return ind + head + "\n" + ind + "| .error err => (Except.error err)\n" + ind + "| .ok " + v + " =>\n" + rest(ind+"  ")
 		}
@@ -894,13 +1025,20 @@ func (c *cg) stmts(list []ast.Stmt, k func(ind string) string, ind string) strin
 	case *ast.DeclStmt:
 		// `var x T`: the zero value is never read in the functions translated; the name becomes a local
 		if gd, ok := s.Decl.(*ast.GenDecl); ok && gd.Tok == token.VAR {
+			pre := ""
 			for _, sp := range gd.Specs {
 				vs := sp.(*ast.ValueSpec)
 				if len(vs.Values) != 0 {
 					return ind + c.fail("var with initialiser")
 				}
+				if exprText(vs.Type) == "bool" { // `var a, b bool`: false until assigned
+					for _, n := range vs.Names {
+						c.s.locals[n.Name] = true
+						pre += ind + "let " + leanIdent(n.Name) + " := false\n"
+					}
+				}
 			}
-			return rest(ind)
+			return pre + rest(ind)
 		}
 		return ind + c.fail("declaration")
 	case *ast.ExprStmt:
@@ -1177,7 +1315,13 @@ func translate(repo string, s *fnSpec) (string, error) {
 		// a void function that fills the set it was handed: the set after its statements
 		body = c.stmts(fd.Body.List, func(ind string) string { return ind + "set" }, "  ")
 	} else {
+		if s.named != "" && s.namedZero != "" {
+			s.locals[s.named] = true
+		}
 		body = c.stmts(fd.Body.List, nil, "  ")
+		if s.named != "" && s.namedZero != "" {
+			body = "  let " + leanIdent(s.named) + " := " + s.namedZero + "\n" + body
+		}
 	}
 	if c.err != nil {
 		return "", c.err
@@ -1191,7 +1335,7 @@ func translate(repo string, s *fnSpec) (string, error) {
 		return fmt.Sprintf("/-- %s: `%s`%s (recursion bounded by fuel: one unit per level of the traversal) -/\ndef %s %s : %s\n  | 0, _, set => set\n  | fuel + 1, self, set =>\n  %s\n",
 			s.file, who, s.doc, s.lean, s.binders, s.ret, strings.ReplaceAll(body, "\n", "\n  ")), nil
 	}
-	return fmt.Sprintf("/-- %s: `%s`%s -/\ndef %s %s : %s :=\n%s\n", s.file, who, s.doc, s.lean, s.binders, s.ret, body), nil
+	return strings.Join(s.aux, "\n") + fmt.Sprintf("/-- %s: `%s`%s -/\ndef %s %s : %s :=\n%s\n", s.file, who, s.doc, s.lean, s.binders, s.ret, body), nil
 }
 
 // ------------------------------------------------------------------------------------------------
@@ -1447,6 +1591,23 @@ func codeSpecs() []*fnSpec {
 		gnSpec("joinNames", "", "go_joinNames", "(a b : Pgs.Bytes)", []string{"a", "b"}),
 		gnSpec("joinChild", "", "go_joinChild", "(a b : Pgs.Bytes)", []string{"a", "b"}),
 		gnSpec("replaceProtected", "", "go_replaceProtected", "(n : Pgs.Bytes)", []string{"n"}),
+		// C15: Name.Split, whole: the dot and underscore branches and the camel-case scanner with its five state variables.
+		// A name is the list of its runes (what `range ns` yields); bytes.Buffer is the list of the runes written to it.
+		{file: "name.go", recv: "Name", name: "Split", lean: "name_Split", rn: "n", named: "parts", namedZero: "([] : List Pgs.Bytes)", ints: map[string]bool{},
+			loopVars: []string{"parts", "buf", "capt", "lodash", "num"}, loopType: "(List Pgs.Bytes × Pgs.Bytes × Bool × Bool × Bool)", loopElem: "Nat",
+			binders: "(up dgt : Nat → Bool) (n : Pgs.Bytes)", ret: "List Pgs.Bytes",
+			exprs: map[string]string{"n": "n", "&bytes.Buffer{}": "([] : Pgs.Bytes)",
+				"unicode.IsUpper(r) || unicode.IsTitle(r)": "(up r)", "unicode.IsDigit(r)": "(dgt r)",
+				"buf.Len()": "(Int.ofNat (List.length buf))", "buf.String()": "buf",
+				"utf8.RuneCount(buf.Bytes())": "(Int.ofNat (List.length buf))", "utf8.RuneCountInString(ss)": "(Int.ofNat (List.length ss))",
+				// ss[0] is a byte; it is '_' exactly when the first rune is (0x5F occurs in UTF-8 only as itself)
+				"ss[0] != '_'": "(List.head? ss != some 95)",
+				// pr is the last rune of ss: taking it off the end is dropping the last rune
+				"strings.TrimSuffix(ss, string(pr))": "(List.dropLast ss)"},
+			calls: map[string]string{"string": "id", "strings.LastIndex": "int:lastIndexR", "strings.Split": "splitStr",
+				"buf.Len": "int:", "utf8.RuneCount": "int:", "utf8.RuneCountInString": "int:",
+				"utf8.DecodeLastRuneInString": "decodeLastRuneR", "get:parts": "listGetB", "set:parts": "listSetB",
+				"meth:buf.Reset": "bufReset", "meth:buf.WriteRune": "bufWriteRune"}},
 		// the closure `unique` of uniqueNames: underscores until the name (and, for a field, its getter) is free; then both are taken
 		{file: "lang/go/name.go", recv: "", name: "uniqueNames", closure: "unique", lean: "go_unique", pn: []string{"n", "getter"}, mode: "mapret", mapVar: "used",
 			binders: "(used : Pgs.GoNames.Used) (fuel_ : Nat) (n : Pgs.Bytes) (getter : Bool)", ret: "Pgs.Bytes × Pgs.GoNames.Used",
@@ -2138,6 +2299,15 @@ func genCode(repo string) (map[string]string, error) {
 	b.WriteString("def isLetterAscii (c : Nat) : Bool := Pgs.GoNames.isLower c || (65 ≤ c && c ≤ 90)\n")
 	b.WriteString("/-- `for cond(s) { s = body(s) }`, for at most the given number of rounds -/\n")
 	b.WriteString("def whileFuel {σ : Type} (cond : σ → Bool) (body : σ → σ) : Nat → σ → σ\n  | 0, s => s\n  | f + 1, s => if cond s then whileFuel cond body f (body s) else s\n")
+	b.WriteString("/-- `strings.LastIndex(s, sep)` for a one-rune separator, as a rune position: -1 if absent (its sign and its being 0 are those of the byte position) -/\n")
+	b.WriteString("def lastIdxAux (c : Nat) : List Nat → Nat → Int → Int\n  | [], _, acc => acc\n  | x :: xs, i, acc => lastIdxAux c xs (i + 1) (if x == c then Int.ofNat i else acc)\n")
+	b.WriteString("def lastIndexR (s sep : Pgs.Bytes) : Int := match sep with | [c] => lastIdxAux c s 0 (-1) | _ => -1\n")
+	b.WriteString("def listGetB (l : List Pgs.Bytes) (i : Int) : Pgs.Bytes := l.getD i.toNat []\n")
+	b.WriteString("def listSetB (l : List Pgs.Bytes) (i : Int) (v : Pgs.Bytes) : List Pgs.Bytes := l.set i.toNat v\n")
+	b.WriteString("/-- bytes.Buffer as the runes written to it -/\n")
+	b.WriteString("def bufReset (b : Pgs.Bytes) : Pgs.Bytes := []\ndef bufWriteRune (b : Pgs.Bytes) (r : Nat) : Pgs.Bytes := b ++ [r]\n")
+	b.WriteString("/-- `utf8.DecodeLastRuneInString`: the last rune (RuneError when there is none) and its width, which nothing reads -/\n")
+	b.WriteString("def decodeLastRuneR (s : Pgs.Bytes) : Nat × Nat := (s.getLast?.getD 65533, 1)\n")
 	b.WriteString("def lookupTbl (t : List (Pgs.Bytes × Pgs.Bytes)) (k : Pgs.Bytes) : Option Pgs.Bytes := (t.find? (·.1 == k)).map (·.2)\n")
 	b.WriteString("/-- a prefixedDebugger, as far as its output goes, is the prefix string it stores -/\n")
 	b.WriteString("def mkPrefixedDebugger (parent : Unit) (prefix_ : Pgs.Bytes) : Pgs.Bytes := prefix_\n")
